@@ -342,3 +342,22 @@ PROPS["C04"] = dict(
     trusted=CHECK_TRUSTED,
     assumptions=["which solution index is blamed for a duplicate computed mutation depends on the order (the property fixes the verdict, gas and mutations, not the blamed index)"],
 )
+
+PROPS["C01"] = dict(
+    modules=["Essential.Props.C01"],
+    gen=gen_check.c01_cases,
+    model_is_spec=True, abort_is_violation=True,
+    nontrivial=lambda body, out: out.startswith("ok") or out.startswith("err"),
+    exhaustive=None,
+    rule="graphs: 14 templates (chain, diamond, fan-in/out, multi-edge, multi-edge join, several roots/leaves, deferred parent "
+         "with a lower index than a cached parent) and random DAGs of 1..7 nodes with multi-edges, each under up to 5 numberings "
+         "the node/edge encoding can express (incl. non-topological); node programs: constants on stack / memory, post-state "
+         "readers (deferred), failing non-leaves, leaves that check the sum of what they inherit, report their inherited stack or "
+         "memory as a data output, or end 0 / fail; 1..3 solutions, both values of collect_all_failures; cyclic / malformed "
+         "edge lists; every case runs check_and_compute_solution_set_two_pass on code and model, o_ref compares the code with a "
+         "Python reference semantics of the graph (verdict kind, unsatisfied leaves, sorted data outputs), o_same compares the "
+         "numberings that keep every parent list ascending (verdict, gas, data outputs); non-trivial = distinct case returning a value or typed error",
+    trusted=CHECK_TRUSTED + ["the Python reference semantics in vlib/gen_check.py (ref_eval, ~60 lines)"],
+    assumptions=["numbering-independence is compared for renumberings that keep every parent list ascending (the statement fixes ascending parent order); data outputs are compared as a multiset",
+                 "edge targets in range; edges to non-existent nodes are reproduced by the model and compared, not part of the refinement theorem"],
+)
